@@ -88,6 +88,16 @@ Theorem C12_tunnel_complete_multi :
 Proof. exact tunnel_complete_multi. Qed.
 Print Assumptions C12_tunnel_complete_multi.
 
+(* SetSourceExclusionID: packets carrying the receiver's own non-zero id deliver nothing and touch no state. *)
+Theorem C12_tunnel_self_exclusion :
+  forall rc s t a p,
+    rc_misc rc = false -> sr_ok s ->
+    rc_sex rc <> 0 -> sc_sex (sr_cfg s) = rc_sex rc ->
+    In p (sr_packets s) ->
+    recv_packet rc t a p = (t, []).
+Proof. exact tunnel_self_exclusion. Qed.
+Print Assumptions C12_tunnel_self_exclusion.
+
 (* The premise "ids distinct mod 2^32" cannot be dropped: with a repeated id a reordering network splices. *)
 Theorem C12_tunnel_wrap_refuted :
   exists net,
@@ -107,6 +117,10 @@ Example C12_multi_nontrivial :
   /\ filter (from 5) (snd (recv_all ex_rc [] net)) = [(5, repeat Byte.x41 9); (5, [])]
   /\ filter (from 6) (snd (recv_all ex_rc [] net)) = [(6, repeat Byte.x41 9)].
 Proof. exact multi_nontrivial. Qed.
+Example C12_self_exclusion_nontrivial :
+  rc_misc ex_rc7 = false /\ rc_sex ex_rc7 <> 0 /\ sc_sex (sr_cfg ex_run) = rc_sex ex_rc7
+  /\ sr_packets ex_run <> [] /\ snd (recv_all ex_rc7 [] (map (pair 5) (sr_packets ex_run))) = [].
+Proof. exact ex_self_exclusion. Qed.
 Example C12_premises_nontrivial :
   length (sr_packets ex_run) = 8%nat
   /\ snd (recv_all ex_rc [] (map (pair 5) (sr_packets ex_run))) = [(5, repeat Byte.x41 9); (5, [])]
